@@ -214,6 +214,23 @@ func varDeps(p *Prog, outer *Fn) map[types.Object]map[string]bool {
 				nonzero++
 				// innermost enclosing if-with-dependency (then-branch only)
 				found := false
+				// a boolean that IS such a condition: markStreams := len(info.add) != 0 || len(info.del) != 0
+				if as1, ok := a.node.(*ast.AssignStmt); ok && len(as1.Lhs) == len(as1.Rhs) {
+					for i, l := range as1.Lhs {
+						if id, ok := l.(*ast.Ident); ok && info.ObjectOf(id) == obj {
+							if t := info.TypeOf(as1.Rhs[i]); t != nil {
+								if b, ok := t.Underlying().(*types.Basic); ok && b.Info()&types.IsBoolean != 0 {
+									if d := condDeps(g, as1.Rhs[i]); len(d) > 0 {
+										for f := range d {
+											dep[f] = true
+										}
+										found = true
+									}
+								}
+							}
+						}
+					}
+				}
 				for _, ifs1 := range ifs {
 					if !within(a.node, ifs1.Body) {
 						continue
